@@ -262,3 +262,484 @@ def empty_rows_ok(P):
             if not {"L": 0 <= rhs, "G": rhs <= 0, "E": rhs == 0, "R": rhs <= 0 <= rhs + rg}[s]:
                 return False
     return True
+
+
+# ----------------------------------------------------------------------------- C10: independent renderers (known problem -> text)
+
+def _terminating(q):
+    d = q.denominator
+    for p in (2, 5):
+        while d % p == 0:
+            d //= p
+    return d == 1
+
+
+def _dec_text(n, shift, rng):
+    """decimal text of n / 10**shift (n >= 0, shift >= 0), with the lexical freedoms of the scanner"""
+    s = str(n)
+    if shift == 0:
+        return s + rng.choice(["", "", ".", ".0", ".00"])
+    s = s.rjust(shift + 1, "0")
+    ip, fp = s[:-shift], s[-shift:]
+    if rng.random() < 0.3:
+        fp += "0" * rng.randint(1, 2)
+    if ip == "0" and rng.random() < 0.4:
+        ip = ""                       # ".5"
+    elif rng.random() < 0.15:
+        ip = "0" + ip                 # leading zero
+    return ip + "." + fp
+
+
+def spell_nonneg(rng, q):
+    """text of a literal (no sign) whose value is exactly q >= 0: integer / decimal / exponent / fraction"""
+    q = F(q)
+    assert q >= 0
+
+    def scaled(n, k):
+        """n / 10**k with an optional exponent part"""
+        if rng.random() < 0.45:
+            t = 0
+        else:
+            t = rng.randint(-3, 4)
+        kk = k + t
+        if kk >= 0:
+            m = _dec_text(n, kk, rng)
+        else:
+            m = _dec_text(n * 10 ** (-kk), 0, rng)
+        if t == 0 and rng.random() < 0.8:
+            return m
+        return m + rng.choice("eE") + rng.choice(["", "+"] if t >= 0 else ["-"]) + str(abs(t)).rjust(rng.choice([1, 1, 2]), "0")
+
+    style = rng.choice(["plain", "dec", "frac", "frac2"])
+    if _terminating(q) and style in ("plain", "dec"):
+        k = 0
+        while (q * 10 ** k).denominator != 1:
+            k += 1
+        if style == "dec" and rng.random() < 0.5:
+            k += rng.randint(0, 2)
+        return scaled(int(q * 10 ** k), k)
+    m = rng.choice([1, 1, 2, 3, 10]) if style == "frac2" else 1
+    a, b = q.numerator * m, q.denominator * m
+    if b == 1 and style != "frac2":
+        return scaled(a, 0)
+    return scaled(a, 0) + "/" + scaled(b, 0)
+
+
+KNOWN_NAME_FIRST = string.ascii_letters + "_!\"#$%&(),;?@`'{}|~"
+
+
+def known_name(rng, taken, kind="col"):
+    while True:
+        k = rng.random()
+        if k < 0.6:
+            n = rng.choice("xyzabuvw") + str(rng.randint(0, 30))
+        elif k < 0.8:
+            n = rng.choice(KNOWN_NAME_FIRST) + "".join(rng.choice(KNOWN_NAME_FIRST + string.digits + "./") for _ in range(rng.randint(0, 5)))
+        elif k < 0.9:
+            n = rng.choice(["e", "E", "e5", "E1x", "ee", "Ex", "x.e1", "a/b", "end1", "st_", "max2", "Minimize_", "boundsx", "integer_", "intx", "subject1"])
+        else:
+            n = rng.choice(["end", "st", "min", "max", "bounds", "integer", "int", "subject", "problem", "END", "ST"])    # keywords are names away from column 1
+        low = n.lower()
+        if low.startswith("inf") or low.startswith("free") or n in taken or n[0] in "$*":
+            continue        # inf*/free*: known LP ambiguities (C08 findings); $ and * open comments in MPS
+        taken.add(n)
+        return n
+
+
+def gen_known(rng, fmt="LP", big=True):
+    """known problem for the renderers: every column used, rows non-empty, names valid in both formats"""
+    n = rng.choice([1, 2, 3, 4, 6])
+    m = rng.choice([1, 2, 3, 4])
+    taken = set()
+    cn = [known_name(rng, taken) for _ in range(n)]
+    rn = [known_name(rng, taken) for _ in range(m)]
+    cols = []
+    for j in range(n):
+        lo, up = rand_bounds(rng, False)
+        it = rng.random() < 0.25
+        if it and rng.random() < 0.5:
+            lo, up = F(0), F(1)
+        cols.append((cn[j], rand_num(rng, big, 60) if rng.random() < 0.7 else F(0), lo, up, it))
+    rows = []
+    for i in range(m):
+        ent = [(cn[j], rand_num(rng, big, 60)) for j in range(n) if rng.random() < 0.6]
+        ent = [(c, v) for c, v in ent if v != 0] or [(rng.choice(cn), F(rng.randint(1, 5)))]
+        rows.append((rn[i], rng.choice("LGE"), rand_num(rng, big, 60), F(0), ent))
+    for j in range(n):
+        if cols[j][1] == 0 and not any(c == cn[j] for r in rows for c, _ in r[4]):
+            i = rng.randrange(m)
+            rows[i] = rows[i][:4] + (rows[i][4] + [(cn[j], F(rng.randint(1, 9)))],)
+    return dict(name="k%d" % rng.randint(0, 999), max=rng.random() < 0.5, cols=cols, rows=rows)
+
+
+def _case(rng, w):
+    k = rng.random()
+    return w.upper() if k < 0.3 else w.lower() if k < 0.6 else w.capitalize() if k < 0.8 else "".join(rng.choice([c.upper(), c.lower()]) for c in w)
+
+
+class LpLayout:
+    """token stream -> text with random blanks, line breaks and comments; continuation lines are indented"""
+    def __init__(self, rng, colon_in_comment=False):
+        self.rng = rng
+        self.lines = []
+        self.cur = ""
+        self.colon = colon_in_comment
+        self.used_colon_comment = False
+
+    def comment(self):
+        r = self.rng
+        if r.random() < 0.25:
+            words = ["note", "x1 <= 3", "end", "2 y", "\\\\", "free", ">= 7"]
+            if self.colon and r.random() < 0.5:
+                words += ["c9: x", "a:b"]
+            t = r.choice(words)
+            if ":" in t:
+                self.used_colon_comment = True
+            return r.choice(["", " ", " ", " ", "\t", "  "]) + "\\" + r.choice(["", " "]) + t
+        return ""
+
+    def newline(self, indent=True):
+        self.lines.append(self.cur + self.comment())
+        if self.rng.random() < 0.1:
+            self.lines.append(self.rng.choice(["", "   ", "\\ a whole comment line", "\t"]))
+        self.cur = self.rng.choice([" ", "  ", "\t", "    "]) if indent else ""
+
+    def tok(self, t, glue_ok=False, may_break=True):
+        r = self.rng
+        if may_break and self.cur.strip() and r.random() < 0.12:
+            self.newline()
+        sep = "" if (glue_ok and r.random() < 0.5) else r.choice([" ", " ", "  ", "\t"])
+        if not self.cur.strip() and self.cur == "":
+            sep = ""
+        self.cur += sep + t
+
+    def keyword_line(self, t):
+        """keywords start in column 1"""
+        if self.cur != "":
+            self.lines.append(self.cur + self.comment())
+        self.cur = t
+
+    def text(self):
+        if self.cur != "":
+            self.lines.append(self.cur)
+            self.cur = ""
+        return "\n".join(self.lines) + "\n"
+
+
+def render_lp(rng, K, colon_in_comment=False, final_newline=True):
+    """LP text denoting exactly K; returns (text, flags)"""
+    L = LpLayout(rng, colon_in_comment)
+    if rng.random() < 0.6:
+        L.keyword_line(_case(rng, rng.choice(["PROBLEM", "PROB"])))
+        L.tok(K["name"], may_break=True)
+    L.keyword_line(_case(rng, rng.choice(["MAX", "MAXIMUM", "MAXIMIZE"] if K["max"] else ["MIN", "MINIMUM", "MINIMIZE"])))
+    L.newline()
+
+    def expr(ent):
+        """terms with all spelling freedoms; ent = [(name, coef)] possibly with repeats"""
+        terms = []
+        for c, v in ent:
+            if rng.random() < 0.2 and v != 0:
+                a = F(rng.randint(-3, 3), rng.randint(1, 4))
+                terms += [(c, a), (c, v - a)]          # repeated terms add up
+            else:
+                terms.append((c, v))
+        if len(terms) > 1 and rng.random() < 0.5:
+            rng.shuffle(terms)
+        first = True
+        for c, v in terms:
+            neg = v < 0
+            mag = -v if neg else v
+            if neg:
+                L.tok("-")
+            elif not first or rng.random() < 0.3:
+                L.tok("+")
+            if mag != 1 or rng.random() < 0.3:
+                L.tok(spell_nonneg(rng, mag), glue_ok=True)
+            L.tok(c)                     # always a blank before a name (the writer does the same)
+            first = False
+
+    objent = [(c[0], c[1]) for c in K["cols"] if c[1] != 0]
+    if rng.random() < 0.15:
+        zc = [c[0] for c in K["cols"] if c[1] == 0]
+        if zc:
+            objent.append((rng.choice(zc), F(0)))      # explicit zero coefficient
+    named_obj = rng.random() < 0.6 or not objent
+    if named_obj:
+        L.tok(rng.choice(["obj", "cost", "z_", "OBJ1"]), may_break=False)
+        L.tok(":", glue_ok=True, may_break=False)
+    expr(objent)
+    L.keyword_line(_case(rng, "ST") if rng.random() < 0.4 else _case(rng, "SUBJECT") + rng.choice([" ", "  ", "\t"]) + _case(rng, "TO"))
+    unnamed = []
+    for i, (rn, s, rhs, rg, ent) in enumerate(K["rows"]):
+        L.newline()
+        if rng.random() < 0.75:
+            L.tok(rn, may_break=False)
+            L.tok(":", glue_ok=True, may_break=False)
+        else:
+            unnamed.append(i)
+        expr(ent)
+        L.tok(rng.choice({"L": ["<=", "=<", "<"], "G": [">=", "=>", ">"], "E": ["="]}[s]))
+        sg = "-" if rhs < 0 else rng.choice(["", "", "+"])
+        L.tok(sg + spell_nonneg(rng, abs(rhs)), glue_ok=True)
+
+    def bval(v):
+        if v == INF:
+            return rng.choice(["", "+"]) + _case(rng, rng.choice(["inf", "infinity"]))
+        if v == NINF:
+            return "-" + _case(rng, rng.choice(["inf", "infinity"]))
+        return ("-" if v < 0 else rng.choice(["", "", "+"])) + spell_nonneg(rng, abs(v))
+
+    stmts = []
+    for (cn, o, lo, up, it) in K["cols"]:
+        forms = []
+        if lo == up:
+            forms = [[(None, cn, "=", lo)], [(lo, cn, "<=", up)]]
+        elif lo == NINF and up == INF:
+            forms = [[(None, cn, "free", None)], [(lo, cn, "<=", up)], [(lo, cn, None, None)]]
+        else:
+            dl = (lo == 0 and not (up != INF and up < 0)) or (lo == NINF and up != INF and up < 0)
+            du = (up == 1) if (it and lo == 0) else (up == INF)
+            if dl and du:
+                forms = [[]]
+                if not it:
+                    forms += [[(F(0), cn, None, None)], [(None, cn, "<=", INF)], [(F(0), cn, "<=", INF)]]
+            elif dl:
+                forms = [[(None, cn, "<=", up)], [(lo, cn, "<=", up)]]
+                if it and lo == 0:
+                    forms = [[(None, cn, "<=", up)]] if up != INF else [[(F(0), cn, None, None)], [(None, cn, "<=", INF)]]
+            elif du:
+                forms = [[(lo, cn, None, None)]]
+                if not it:
+                    forms.append([(lo, cn, "<=", up)])
+            else:
+                forms = [[(lo, cn, "<=", up)], [(lo, cn, None, None), (None, cn, "<=", up)], [(None, cn, "<=", up), (lo, cn, None, None)]]
+        stmts.append(rng.choice(forms))
+    if rng.random() < 0.5:
+        rng.shuffle(stmts)
+    if any(stmts) or rng.random() < 0.2:
+        L.keyword_line(_case(rng, rng.choice(["BOUNDS", "BOUND"])))
+        L.newline()
+        for st in stmts:
+            for (lo, cn, op, up) in st:
+                if rng.random() < 0.7:
+                    L.newline()
+                if lo is not None:
+                    L.tok(bval(lo), may_break=False)
+                    L.tok("<=", glue_ok=(lo not in (INF, NINF)))      # the reader wants a blank after inf / infinity
+                L.tok(cn)
+                if op == "free":
+                    L.tok(_case(rng, "free"))
+                elif op is not None:
+                    L.tok(op, glue_ok=True)
+                    L.tok(bval(up), glue_ok=True, may_break=False)
+    ints = [c[0] for c in K["cols"] if c[4]]
+    int_kw = None
+    if ints:
+        int_kw = rng.choice(["INTEGER", "INTEGER", "INTEGER", "INTEGER", "INT"])
+        L.keyword_line(_case(rng, int_kw))
+        L.newline()
+        for c in ints:
+            L.tok(c)
+    L.keyword_line(_case(rng, "END"))
+    t = L.text()
+    if not final_newline:
+        t = t[:-1]
+    return t, dict(unnamed=unnamed, colon_comment=L.used_colon_comment, named_obj=named_obj, int_kw=int_kw, final_newline=final_newline)
+
+
+def gen_known_mps(rng, big=True):
+    """known problem + MPS-only features: (K, spec) where spec drives the renderer"""
+    K = gen_known(rng, "MPS", big)
+    # ranges of both signs on L/G/E rows
+    rng_spec = {}
+    rows = []
+    for (rn, s, rhs, rg, ent) in K["rows"]:
+        if rng.random() < 0.4:
+            r = rand_num(rng, False) or F(2)
+            rng_spec[rn] = (s, rhs, r)
+            if s == "G":
+                rows.append((rn, "R", rhs, abs(r), ent))
+            elif s == "L":
+                rows.append((rn, "R", rhs - abs(r), abs(r), ent))
+            elif r >= 0:
+                rows.append((rn, "R", rhs, r, ent))
+            else:
+                rows.append((rn, "R", rhs + r, -r, ent))
+        else:
+            rows.append((rn, s, rhs, rg, ent))
+    K2 = dict(K)
+    K2["rows"] = rows
+    via = {}
+    for (cn, o, lo, up, it) in K["cols"]:
+        if it:
+            opts = ["marker", "marker"]
+            if lo == 0 and up == 1:
+                opts.append("BV")
+            if up != INF and lo != up and not (lo == NINF and up == INF):
+                opts.append("UI")
+            if lo != NINF and lo != up:
+                opts.append("LI")
+            via[cn] = rng.choice(opts)
+    return K2, dict(orig_rows=K["rows"], ranges=rng_spec, int_via=via)
+
+
+def render_mps(rng, K, spec, dollar=False):
+    """MPS text denoting exactly K (K's R rows come from spec['ranges'] applied to spec['orig_rows']); returns (text, flags)"""
+    out = []
+    flags = dict(dollar=False)
+    tab = lambda: rng.choice(["  ", "    ", "\t", "   "])
+
+    def junk():
+        if rng.random() < 0.15:
+            out.append(rng.choice(["* comment", "*", "", "* ROWS"]))
+
+    out.append("NAME" + tab() + K["name"])
+    objname = rng.choice(["obj", "COST", "z", "N1"])
+    while objname in [r[0] for r in K["rows"]] + [c[0] for c in K["cols"]]:
+        objname += "_"
+    if K["max"] or rng.random() < 0.5:
+        out.append("OBJSENSE")
+        out.append(tab() + rng.choice(["MAX", "Max", "max", "MAXIMIZE", "Maximize", "maximize"] if K["max"] else ["MIN", "Min", "min", "MINIMIZE", "Minimize", "minimize"]))
+    extraN = None
+    if rng.random() < 0.3:
+        out.append("OBJNAME")
+        out.append(tab() + objname)
+        if rng.random() < 0.5:
+            extraN = "unusedN"
+    junk()
+    out.append("ROWS")
+    rowdefs = [("N", objname)] + [(r[1], r[0]) for r in spec["orig_rows"]]
+    if extraN:
+        rowdefs.insert(rng.randint(0, len(rowdefs)), ("N", extraN))
+    elif rng.random() < 0.5:
+        pass
+    else:
+        rest = rowdefs[1:]
+        rng.shuffle(rest)
+        rowdefs = [rowdefs[0]] + rest
+    flags["row_order"] = [n for s_, n in rowdefs if s_ != "N"]
+    for s, n in rowdefs:
+        out.append(" " + s + tab() + n)
+        junk()
+    out.append("COLUMNS")
+    mark = 0
+    inint = False
+    for (cn, o, lo, up, it) in K["cols"]:
+        viaMarker = it and spec.get("int_via", {}).get(cn, "marker") == "marker"
+        if viaMarker != inint:
+            out.append(" MARKER%d" % mark + tab() + "'MARKER'" + tab() + ("'INTORG'" if viaMarker else "'INTEND'"))
+            mark += 1
+            inint = viaMarker
+        ents = []
+        if o != 0:
+            ents.append((objname, o))
+        for (rn, s, rhs, rg, ent) in K["rows"]:
+            acc = [v for c, v in ent if c == cn]
+            for v in acc:
+                if rng.random() < 0.15 and v != 0:
+                    a = F(rng.randint(-2, 2))
+                    ents += [(rn, a), (rn, v - a)]
+                else:
+                    ents.append((rn, v))
+        if extraN and rng.random() < 0.5:
+            ents.append((extraN, F(rng.randint(1, 5))))
+        rng.shuffle(ents)
+        i = 0
+        while i < len(ents):
+            two = i + 1 < len(ents) and rng.random() < 0.4
+            line = tab() + cn + tab() + ents[i][0] + tab() + mps_num(rng, ents[i][1])
+            if two:
+                line += tab() + ents[i + 1][0] + tab() + mps_num(rng, ents[i + 1][1])
+            if dollar and rng.random() < 0.2:
+                line += tab() + "$ a comment"
+                flags["dollar"] = True
+            out.append(line)
+            i += 2 if two else 1
+        junk()
+    if inint:
+        out.append(" MARKER%d" % mark + tab() + "'MARKER'" + tab() + "'INTEND'")
+    rhsname = rng.choice(["RHS", "rhs1", "B", None])
+
+    def pairs_section(title, setname, items):
+        out.append(title)
+        i = 0
+        while i < len(items):
+            two = i + 1 < len(items) and rng.random() < 0.4
+            line = " " + (setname + tab() if setname else tab()) + items[i][0] + tab() + mps_num(rng, items[i][1])
+            if two:
+                line += tab() + items[i + 1][0] + tab() + mps_num(rng, items[i + 1][1])
+            out.append(line)
+            i += 2 if two else 1
+
+    rh = [(r[0], r[2]) for r in spec["orig_rows"] if r[2] != 0 or rng.random() < 0.2]
+    if rng.random() < 0.3:
+        rh.append((objname, F(-rng.randint(1, 9))))          # objective constant: ignored (warning)
+    rng.shuffle(rh)
+    sections = []
+    if rh or rng.random() < 0.5:
+        sections.append(("RHS", rhsname, rh))
+    rg = [(rn, r) for rn, (s, rhs, r) in spec["ranges"].items()]
+    if rg:
+        sections.append(("RANGES", rng.choice(["RANGE", "rng", None]), rg))
+    if rng.random() < 0.3:
+        sections.reverse()
+    for t, sn, items in sections:
+        pairs_section(t, sn, items)
+        junk()
+    bl = []
+    bname = rng.choice(["BOUND", "BND", "b1", None])
+    for (cn, o, lo, up, it) in K["cols"]:
+        via = spec.get("int_via", {}).get(cn, "marker") if it else None
+        recs = []
+        if via == "BV":
+            recs = [("BV", None)]
+        elif lo == up and via is None or (lo == up and via == "marker"):
+            recs = [("FX", lo)]
+        elif lo == NINF and up == INF:
+            recs = [rng.choice([[("FR", None)], [("MI", None)], [("MI", None), ("PL", None)]])][0]
+        else:
+            dl = (lo == 0 and not (up != INF and up < 0)) or (lo == NINF and up != INF and up < 0)
+            du = (up == 1) if (it and lo == 0 and via == "marker") else (up == INF)
+            if via == "UI":
+                du, dl = False, dl
+            if via == "LI":
+                dl = False
+            if not dl or rng.random() < 0.15:
+                if lo == NINF:
+                    recs.append(("MI", None))
+                elif via == "LI":
+                    recs.append(("LI", lo))
+                elif not (it and lo == 0 and du and via == "marker"):
+                    recs.append(("LO", lo))
+            if not du or (rng.random() < 0.15 and not (it and via == "marker" and lo == 0 and not recs)):
+                if up == INF:
+                    recs.append(("PL", None))
+                elif via == "UI":
+                    recs.append(("UI", up))
+                else:
+                    recs.append(("UP", up))
+            if rng.random() < 0.5:
+                recs.reverse()
+        for (t, v) in recs:
+            bl.append((t, cn, v))
+    if bname is None and any(v is None for (t, cn, v) in bl):
+        bname = "BND"          # FR / MI / PL / BV records carry no number: the blank-set-name heuristic cannot apply
+    bl = [" " + t + " " + (bname + tab() if bname else tab()) + cn + ((tab() + mps_bound(rng, v)) if v is not None else "") for (t, cn, v) in bl]
+    if bl:
+        out.append("BOUNDS")
+        out += bl
+    out.append("ENDATA")
+    return "\n".join(out) + "\n", flags
+
+
+def mps_num(rng, v):
+    return ("-" if v < 0 else rng.choice(["", "", "+"])) + spell_nonneg(rng, abs(v))
+
+
+def mps_bound(rng, v):
+    if v == INF:
+        return rng.choice(["", "+"]) + rng.choice(["inf", "INF", "Infinity", "INFINITY"])
+    if v == NINF:
+        return "-" + rng.choice(["inf", "INF", "infinity"])
+    return mps_num(rng, v)
